@@ -424,7 +424,67 @@ def rule_d(ctx, out):
                     out.bad(f"totals-read-by:{f.name}", f"running total {n.id} is read on the per-block path", where(f, n))
 
 
+def _memo_idiom(gf, key):
+    """dict used only inside one function as g[k] / k in g / g.get(k) / g[k] = v with k built from that function's parameters."""
+    users = {f.qual for f, _ in gf.readers.get(key, [])} | gf.writers.get(key, set()) | gf.mutators.get(key, set())
+    if len(users) != 1 or gf.writers.get(key):
+        return False
+    f = gf.readers[key][0][0] if gf.readers.get(key) else None
+    if f is None:
+        return False
+    params = set(f.params)
+    for _, node in gf.readers[key]:
+        p = getattr(node, "_parent", None)
+        if isinstance(p, ast.Subscript) and p.value is node:
+            k = p.slice
+        elif isinstance(p, ast.Compare) and node in p.comparators and isinstance(p.ops[0], (ast.In, ast.NotIn)):
+            k = p.left
+        elif isinstance(p, ast.Attribute) and p.attr == "get" and isinstance(getattr(p, "_parent", None), ast.Call) and p._parent.args:
+            k = p._parent.args[0]
+        else:
+            return False
+        names = {x.id for x in ast.walk(k) if isinstance(x, ast.Name)}
+        if not names or not names <= params:
+            return False
+    return True
+
+
+def rule_e(ctx, out):
+    """Project-wide: any other module-level state that per-block code writes or mutates and something reads."""
+    handled = set(MODS) | {"greedy.block_generation"}
+    reach = ctx.r.reachable([ctx.func("gasol_asm.execute_gasol")], by_name=True)
+    mods = sorted({f.module.name for f in reach.values()} - handled)
+    gf = GlobalFacts(ctx, mods)
+    gf.collect({q: f for q, f in reach.items() if f.module.name in mods})
+    allowed = {
+        ("gasol_asm", n): "running totals: written only by init/update_* helpers, read only for the final report (C12.d)"
+        for n in ("previous_gas", "new_gas", "previous_size", "new_size", "new_n_instrs", "prev_n_instrs")}
+    n = 0
+    for m in mods:
+        for g in sorted(gf.mod_globals[m]):
+            key = (m, g)
+            w, mu = gf.writers.get(key, set()), gf.mutators.get(key, set())
+            n += 1
+            if not w and not mu:
+                out.ok()
+                continue
+            if key in allowed:
+                out.ok({"global": f"{m}.{g}", "allowed": allowed[key]})
+                continue
+            rd = [f.qual for f, _ in gf.readers.get(key, [])]
+            if _memo_idiom(gf, key):
+                out.ok({"global": f"{m}.{g}", "idiom": "memo table keyed by the parameters of the only function that touches it"})
+                continue
+            out.bad(f"module-state:{m}.{g}", f"module-level name {m}.{g} is re-bound/mutated at run time by {sorted(w | mu)[:3]} and read by "
+                    f"{sorted(set(rd))[:3]}: its value survives from one block to the next", f"{ctx.p.modules[m].rel}")
+    out.info["modules_scanned"] = len(mods)
+    out.info["module_level_names_scanned"] = n
+    if n < 25:
+        raise AnalysisError(f"only {n} module-level names scanned")
+
+
 RULES = [
+    ("C12.e", "no other module keeps run-time state across blocks", 25, rule_e),
     ("C12.a", "no stale module global can reach a specification", 55, rule_a),
     ("C12.b", "get_sfs_dict returns this block's specifications", 2, rule_b),
     ("C12.c", "singletons, class-level state, mutable constants, temp files", 6, rule_c),
